@@ -144,6 +144,18 @@ func (p *Prog) InModule(fn *ssa.Function) bool {
 		if fn.Parent() != nil {
 			return p.InModule(fn.Parent())
 		}
+		if fn.Synthetic != "" && fn.Blocks != nil {
+			// a wrapper (method expression, method value, promoted method): in the module iff what it forwards to is
+			for _, b := range fn.Blocks {
+				for _, in := range b.Instrs {
+					if c, ok := in.(ssa.CallInstruction); ok {
+						if cal := c.Common().StaticCallee(); cal != nil && cal != fn && cal.Synthetic == "" {
+							return p.InModule(cal)
+						}
+					}
+				}
+			}
+		}
 		return false
 	}
 	return strings.HasPrefix(pk.Pkg.Path(), p.ModPrefix)
@@ -183,6 +195,21 @@ func (p *Prog) ModFuncs() []*ssa.Function {
 			}
 		}
 	}
+	// instantiations of the module's generic functions (created on demand, not package members); the generic
+	// templates themselves are not analysable code and are left out
+	for fn := range ssautil.AllFunctions(p.SSA) {
+		if fn.Origin() != nil && fn.Origin() != fn && p.InModule(fn) {
+			add(fn)
+		}
+	}
+	var keep []*ssa.Function
+	for _, f := range out {
+		if f.TypeParams().Len() > 0 && len(f.TypeArgs()) == 0 {
+			continue
+		}
+		keep = append(keep, f)
+	}
+	out = keep
 	sort.Slice(out, func(i, j int) bool { return out[i].String() < out[j].String() })
 	return out
 }
